@@ -5,6 +5,7 @@ package main
 // panicking operation is an obligation.
 
 import (
+	"encoding/json"
 	"flag"
 	"fmt"
 	"os"
@@ -34,6 +35,10 @@ func cmdSweep(args []string) int {
 	fs := flag.NewFlagSet("sweep", flag.ExitOnError)
 	timeout := fs.Int("t", 10, "solver timeout")
 	only := fs.String("f", "", "comma-separated function keys")
+	outFile := fs.String("out", "", "write the results as JSON (worker mode)")
+	par := fs.Int("par", runtime.NumCPU(), "parallel solver runs")
+	vcDir := fs.String("vc", "sweep", "sub-directory of work/vc for the scripts")
+	shard := fs.Int("j", 0, "run sharded over this many worker processes")
 	fs.Parse(args)
 	p, err := loadAll(nil)
 	if err != nil {
@@ -46,10 +51,14 @@ func cmdSweep(args []string) int {
 	if *only != "" {
 		keys = strings.Split(*only, ",")
 	}
-	workDir := filepath.Join(verifDir, "work", "vc", "sweep")
+	workDir := filepath.Join(verifDir, "work", "vc", *vcDir)
 	t0 := time.Now()
 	var all []*Obligation
 	var results []*FuncResult
+	if *shard > 0 {
+		rs, _ := runSweepSharded(p, keys, *timeout, *shard)
+		return reportSweep(rs, t0)
+	}
 	for _, k := range keys {
 		t1 := time.Now()
 		res := generateOne(p, k, workDir, false)
@@ -59,13 +68,43 @@ func cmdSweep(args []string) int {
 			}
 		}
 		fmt.Fprintf(os.Stderr, "gen %-45s %6d obls %6.1fs %s\n", k, len(res.Obls), time.Since(t1).Seconds(), trunc(res.Undecided, 80))
+		if os.Getenv("GOVC_HOUDINI") != "" {
+			fmt.Fprintf(os.Stderr, "  quick-solve: %d calls, %d goals (%d to stage 2), wall %.1fs\n", quickStats.calls, quickStats.goals, quickStats.stage2, quickStats.wall.Seconds())
+		}
 		results = append(results, res)
 		all = append(all, res.Obls...)
 	}
 	fmt.Printf("generated %d obligations for %d functions in %.1fs\n", len(all), len(keys), time.Since(t0).Seconds())
-	d := &Discharger{WorkDir: workDir, TimeoutS: *timeout, Seed: 1, Par: runtime.NumCPU(), Retry: false}
+	d := &Discharger{WorkDir: workDir, TimeoutS: *timeout, Seed: 1, Par: *par, Retry: false}
 	solveAll(all, d)
+	if *outFile != "" {
+		for _, o := range all {
+			o.Output = trunc(o.Output, 1500)
+		}
+		b, _ := json.Marshal(results)
+		os.WriteFile(*outFile, b, 0o644)
+		if *vcDir != "sweep" {
+			// keep only the scripts of obligations that were not discharged (for the replay files)
+			for _, o := range all {
+				if o.Status == "proved" || o.Canary || o.Auto {
+					os.Remove(o.File)
+					if o.FileF != "" {
+						os.Remove(o.FileF)
+					}
+				}
+			}
+		}
+		return 0
+	}
+	return reportSweep(results, t0)
+}
+
+func reportSweep(results []*FuncResult, t0 time.Time) int {
 	bad := 0
+	nAll := 0
+	for _, r := range results {
+		nAll += len(r.Obls)
+	}
 	for _, r := range results {
 		if r.Undecided != "" {
 			fmt.Printf("UNDECIDED %s: %s\n", r.Key, r.Undecided)
@@ -84,6 +123,6 @@ func cmdSweep(args []string) int {
 			fmt.Printf("%s: %d/%d not proved\n%s\n", r.Key, len(fails), len(r.Obls), strings.Join(fails, "\n"))
 		}
 	}
-	fmt.Printf("total: %d obligations, %d not proved, %.1fs\n", len(all), bad, time.Since(t0).Seconds())
+	fmt.Printf("total: %d obligations, %d not proved, %.1fs\n", nAll, bad, time.Since(t0).Seconds())
 	return 0
 }
